@@ -13,3 +13,11 @@ impl PartialEq for Error {
 }
 impl Eq for Error {}
 ''')
+RAW('''
+// `impl From<httparse::Error> for Error` (error.rs) builds HttpParseFail(value.to_string()); Display of
+// httparse::Error is outside the verifier: assumed contract
+impl From<crate::httparse::Error> for Error {
+    #[verifier::external_body]
+    fn from(value: crate::httparse::Error) -> (r: Self) ensures r is HttpParseFail { unimplemented!() }
+}
+''')
